@@ -17,7 +17,7 @@ def l2_part(run, exe_unused, results, env):
              ("c13_n2w", dict(tree=N.CHAIN2, NN=2, MaxNow=1, progs=[[N.WAIT(2, 1)], [N.WAIT(2, 1)], [N.NOTIFY(1)]]))]
     # ... and nsync_sem_wait_with_cancel_ (sem_wait.c), the sleep of a cancellable cv / mu wait, step by step: its on-stack record
     # against notifiers, the note's own expiry and the caller's deadline (configurations s_* of notelib)
-    ncfgs += [(n, c) for n, (props, t, c) in N.CONF.items() if n.startswith("s_") and "C13" in props and (t == "q" or run.tier == "thorough")]
+    ncfgs += [(n, c) for n, (props, t, c) in N.CONF.items() if "C13" in props and (t == "q" or run.tier == "thorough")]
     ncf = [(n, dict(N.note_conf(c), _c=c)) for n, c in ncfgs]
     l2lib.run_family(run, exe2, "Note", "C13", ncf, lambda conf: N.consts_of(conf["_c"]), {"NoDeadRecord"}, {"O-mem"})
     exer = build("h_l2r")
